@@ -7,7 +7,7 @@
    commands (p = presence index, 0 = no row):
      c18sel <frame> <idval>                  -> <p>
      c18der|c18uper <frame> <idval> (<p> <val>)*   -> hex | NONE
-     c18dec <std 0|1> <frame> <hex>          -> OK <consumed> <idval> (<p> <val>)* | FAIL
+     c18dec <frame> <hex>                    -> OK <consumed> <idval> (<p> <val>)* | FAIL
      c18uperdec <frame> <hex>                -> same *)
 open Model
 open Drvlib
@@ -166,12 +166,9 @@ let dispatch cmd args =
            Some (hex_opt (if cmd = "c18der" then der_frame f fv else uper_frame f fv))
        | _ -> Some "BADARG")
   | "c18dec" ->
-      (match args with
-       | std :: rest ->
-           let (f, rest) = parse_frame rest in
-           (match rest with
-            | [h] -> Some (dec_s (ber_decode_frame (std = "1") f (bytes_of_hex h)))
-            | _ -> Some "BADARG")
+      let (f, rest) = parse_frame args in
+      (match rest with
+       | [h] -> Some (dec_s (ber_decode_frame f (bytes_of_hex h)))
        | _ -> Some "BADARG")
   | "c18uperdec" ->
       let (f, rest) = parse_frame args in
